@@ -402,6 +402,9 @@ def build(chk: Check) -> None:
         return {"reproduced": False, "note": "models of three zoo reactions still equal the spec"}
 
     build_node_contracts(chk, search)
+    from contracts.c02_e3 import build_chain_contract
+
+    build_chain_contract(chk, search)
     # engine self-test: a swapped D index must be refuted
     tr = Tr("st")
     phi, theta = sp.Symbol("phi", real=True), sp.Symbol("theta", real=True)
